@@ -93,13 +93,14 @@ def parse_template(path):
             k = int(s.split()[1])
             sec = cur["loops"].setdefault(k, [])
         elif s.startswith("//@before") or s.startswith("//@after"):
-            m = re.match(r"//@(before|after)(?:\[(\d+)/(\d+)\])? /(.*)/$", s)
+            m = re.match(r"//@(before|after)(\?)?(?:\{([<>]?L\d+)\})?(?:\[(\d+)/(\d+)\])? /(.*)/$", s)
             if not m:
                 raise Undecided("bad anchor: " + s)
             sec = []
             kind = m.group(1)
-            k, tot = (int(m.group(2)), int(m.group(3))) if m.group(2) else (1, 1)
-            cur[kind].append((m.group(4), k, tot, sec))
+            k, tot = (int(m.group(4)), int(m.group(5))) if m.group(4) else (1, 1)
+            cur[kind].append({"rx": m.group(6), "k": k, "tot": tot, "lines": sec,
+                              "optional": bool(m.group(2)), "scope": m.group(3)})
         elif s == "//@end":
             items.append(("fn", cur))
             cur, sec = None, None
@@ -179,19 +180,40 @@ def fill_fn(spec, canary, canary_ids, log):
         inserts.append((lps[k - 1][1], "\n" + "\n".join(lines) + "\n"))
     # 4. proof blocks at statement anchors ----------------------------------------------------
     masked = X.mask(body)
+
+    def scope_span(sc):
+        if not sc:
+            return 0, len(body)
+        m = re.match(r"([<>]?)L(\d+)", sc)
+        k = int(m.group(2))
+        if k < 1 or k > len(lps):
+            raise Undecided("lost anchor: scope %s but fn %s has %d loops" % (sc, spec["name"], len(lps)))
+        kw, o, _ = lps[k - 1]
+        c = X.match_brace(masked, o)
+        if m.group(1) == ">":
+            return c + 1, len(body)
+        if m.group(1) == "<":
+            return 0, kw
+        return o, c
+
     for kind in ("before", "after"):
-        for rx, k, tot, lines in spec[kind]:
-            ms = list(re.finditer(rx, masked))
-            if len(ms) != tot:
-                raise Undecided("lost anchor: /%s/ matched %d times in fn %s (expected %d)"
-                                % (rx, len(ms), spec["name"], tot))
-            m = ms[k - 1]
+        for a in spec[kind]:
+            lo, hi = scope_span(a["scope"])
+            ms = [m for m in re.finditer(a["rx"], masked) if lo <= m.start() < hi]
+            if len(ms) != a["tot"]:
+                if a["optional"] and len(ms) == 0:
+                    log.setdefault("skipped_hints", []).append(
+                        "fn %s: optional anchor /%s/ in %s absent, hint skipped" % (spec["name"], a["rx"], a["scope"]))
+                    continue
+                raise Undecided("lost anchor: /%s/ matched %d times in fn %s scope %s (expected %d)"
+                                % (a["rx"], len(ms), spec["name"], a["scope"], a["tot"]))
+            m = ms[a["k"] - 1]
             if kind == "before":
                 pos = body.rfind("\n", 0, m.start()) + 1
             else:
                 pos = body.find("\n", m.end())
                 pos = len(body) - 1 if pos < 0 else pos + 1
-            inserts.append((pos, "\n".join(lines) + "\n"))
+            inserts.append((pos, "\n".join(a["lines"]) + "\n"))
     # 5. canaries ----------------------------------------------------------------------------------
     if canary and spec["canary"]:
         cid = len(canary_ids)
